@@ -113,15 +113,38 @@ func (e *Engine) merge(a, b *State) *State {
 		return nil
 	}
 	L := commonPrefix(a.path, b.path)
-	ca := And(a.path[L:]...)
-	cb := And(b.path[L:]...)
+	split := func(s *State) (cond *Term, facts []*Term) {
+		var cs []*Term
+		for i := L; i < len(s.path); i++ {
+			if s.pk[i] {
+				cs = append(cs, s.path[i])
+			} else {
+				facts = append(facts, s.path[i])
+			}
+		}
+		return And(cs...), facts
+	}
+	ca, fa := split(a)
+	cb, fb := split(b)
 	m := a.Clone()
 	m.path = append([]*Term(nil), a.path[:L]...)
+	m.pk = append([]bool(nil), a.pk[:L]...)
 	m.Assume(Or(ca, cb))
 	if ca.Size() > 60 {
 		n := Fresh("pc", BoolSort)
 		m.Assume(Eq(n, ca))
 		ca = n
+	}
+	if cb.Size() > 60 {
+		n := Fresh("pc", BoolSort)
+		m.Assume(Eq(n, cb))
+		cb = n
+	}
+	for _, f := range fa {
+		m.Assume(Implies(ca, f))
+	}
+	for _, f := range fb {
+		m.Assume(Implies(cb, f))
 	}
 	for k, va := range a.vars {
 		vb, ok := b.vars[k]
@@ -335,12 +358,12 @@ func (fr *Frame) execStmt(st *State, s ast.Stmt) (res []Outcome) {
 		var out []Outcome
 		if !c.IsFalse() {
 			t := st.Clone()
-			t.Assume(c)
+			t.Branch(c)
 			out = append(out, fr.execBlock(t, s.Body.List)...)
 		}
 		if !c.IsTrue() {
 			f := st.Clone()
-			f.Assume(Not(c))
+			f.Branch(Not(c))
 			if s.Else != nil {
 				out = append(out, fr.execStmt(f, s.Else)...)
 			} else {
@@ -586,7 +609,7 @@ func (fr *Frame) execSwitch(st *State, s *ast.SwitchStmt) []Outcome {
 		}
 		cond := Or(conds...)
 		t := rest.Clone()
-		t.Assume(cond)
+		t.Branch(cond)
 		if !t.Infeasible() {
 			for _, o := range fr.execBlock(t, cc.Body) {
 				if o.kind == oBreak && o.label == "" {
@@ -596,7 +619,7 @@ func (fr *Frame) execSwitch(st *State, s *ast.SwitchStmt) []Outcome {
 			}
 		}
 		rest = rest.Clone()
-		rest.Assume(Not(cond))
+		rest.Branch(Not(cond))
 		for _, st := range cc.Body {
 			if b, ok := st.(*ast.BranchStmt); ok && b.Tok == token.FALLTHROUGH {
 				fr.unsupported(s, "fallthrough")
@@ -643,6 +666,9 @@ type modSet struct {
 	heap   map[string]*Sort
 	ghosts map[string]bool
 	all    bool
+	// refinement: keys written only through `v.f...` with v a variable; whole[k] set when some write is not of that form
+	at    map[string]map[*types.Var]bool
+	whole map[string]bool
 }
 
 func (fr *Frame) havocMods(st *State, ms *modSet) {
@@ -659,6 +685,26 @@ func (fr *Frame) havocMods(st *State, ms *modSet) {
 		st.Assume(e.typeFacts(nv, v.Type(), st))
 	}
 	for k, s := range ms.heap {
+		if !ms.whole[k] && len(ms.at[k]) > 0 {
+			ok := true
+			for v := range ms.at[k] {
+				if ms.vars[v] {
+					ok = false // base variable itself changes in the loop
+				}
+				if _, have := st.vars[v]; !have {
+					ok = false
+				}
+			}
+			if ok {
+				h := e.Heap(st, k, s)
+				for v := range ms.at[k] {
+					nv := Fresh("hv$"+shortKey(k), s.V)
+					h = Store(h, st.vars[v], nv)
+				}
+				st.heap[k] = h
+				continue
+			}
+		}
 		st.heap[k] = Fresh("H$"+shortKey(k), s)
 	}
 }
@@ -717,7 +763,7 @@ func (fr *Frame) execFor(st *State, s *ast.ForStmt, label string) []Outcome {
 	// body
 	if !cond.IsFalse() {
 		b := head.Clone()
-		b.Assume(cond)
+		b.Branch(cond)
 		for _, o := range fr.execBlock(b, s.Body.List) {
 			switch {
 			case o.kind == oNormal, o.kind == oContinue && (o.label == "" || o.label == label):
@@ -736,7 +782,7 @@ func (fr *Frame) execFor(st *State, s *ast.ForStmt, label string) []Outcome {
 	}
 	if !cond.IsTrue() {
 		x := head.Clone()
-		x.Assume(Not(cond))
+		x.Branch(Not(cond))
 		out = append(out, Outcome{oNormal, "", x})
 	}
 	return fr.mergeNormals(out)
@@ -807,7 +853,7 @@ func (fr *Frame) execRange(st *State, s *ast.RangeStmt, label string) []Outcome 
 		fr.assumeInvs(head, lc)
 		// body
 		b := head.Clone()
-		b.Assume(Lt(k, n))
+		b.Branch(Lt(k, n))
 		var elem *Term
 		if !isInt && s.Value != nil {
 			if x0.S.IsSlice() {
@@ -833,7 +879,7 @@ func (fr *Frame) execRange(st *State, s *ast.RangeStmt, label string) []Outcome 
 			}
 		}
 		x := head.Clone()
-		x.Assume(Eq(k, n))
+		x.Branch(Eq(k, n))
 		out = append(out, Outcome{oNormal, "", x})
 	case *types.Map:
 		ks := e.sortOf(u.Key())
@@ -850,8 +896,7 @@ func (fr *Frame) execRange(st *State, s *ast.RangeStmt, label string) []Outcome 
 		fr.assumeInvs(head, lc)
 		b := head.Clone()
 		key := Fresh("key", ks)
-		b.Assume(Select(Acc(m, "dom"), key))
-		b.Assume(Not(Select(seen, key)))
+		b.Branch(And(Select(Acc(m, "dom"), key), Not(Select(seen, key))))
 		val := Select(Acc(m, "val"), key)
 		b.Assume(e.typeFacts(key, u.Key(), b))
 		b.Assume(e.typeFacts(val, u.Elem(), b))
@@ -871,7 +916,7 @@ func (fr *Frame) execRange(st *State, s *ast.RangeStmt, label string) []Outcome 
 		}
 		x := head.Clone()
 		kk := Var("k!q", ks)
-		x.Assume(Forall([]*Term{kk}, Implies(Select(Acc(m, "dom"), kk), Select(seen, kk))))
+		x.Branch(Forall([]*Term{kk}, Implies(Select(Acc(m, "dom"), kk), Select(seen, kk))))
 		// the visited set never exceeds what was in the map at some point; for maps not shrunk in the loop: seen ⊆ dom
 		out = append(out, Outcome{oNormal, "", x})
 	case *types.Chan:
@@ -945,7 +990,7 @@ func (fr *Frame) modsOf(body *ast.BlockStmt, post ast.Stmt) *modSet {
 }
 
 func (fr *Frame) modsOfNodes(nodes []ast.Node) *modSet {
-	ms := &modSet{vars: map[*types.Var]bool{}, heap: map[string]*Sort{}, ghosts: map[string]bool{}}
+	ms := &modSet{vars: map[*types.Var]bool{}, heap: map[string]*Sort{}, ghosts: map[string]bool{}, at: map[string]map[*types.Var]bool{}, whole: map[string]bool{}}
 	visited := map[string]bool{}
 	for _, n := range nodes {
 		fr.e.collectMods(fr.info, n, ms, visited, 0)
@@ -1029,8 +1074,26 @@ func (e *Engine) markWritten(info *types.Info, x ast.Expr, ms *modSet) {
 				return
 			}
 		}
+		var baseVar *types.Var
+		if id, ok := x.X.(*ast.Ident); ok && len(sel.Index()) == 1 {
+			baseVar, _ = info.ObjectOf(id).(*types.Var)
+			if baseVar != nil && baseVar.Pkg() != nil && baseVar.Parent() == baseVar.Pkg().Scope() {
+				baseVar = nil
+			}
+		}
 		e.fieldKeysOfSelection(sel, func(key string, f *types.Var) {
 			e.addFieldMods(key, f, ms)
+			if ms.at == nil {
+				return
+			}
+			if baseVar != nil && !isStructVal(f.Type()) {
+				if ms.at[key] == nil {
+					ms.at[key] = map[*types.Var]bool{}
+				}
+				ms.at[key][baseVar] = true
+			} else {
+				ms.whole[key] = true
+			}
 		})
 	}
 }
@@ -1129,21 +1192,27 @@ func (e *Engine) callMods(info *types.Info, call *ast.CallExpr, ms *modSet, visi
 		return
 	}
 	visited[key] = true
-	sub := &modSet{vars: map[*types.Var]bool{}, heap: ms.heap, ghosts: ms.ghosts}
+	sub := &modSet{vars: map[*types.Var]bool{}, heap: map[string]*Sort{}, ghosts: ms.ghosts}
 	e.collectMods(fi.Pkg.TypesInfo, fi.Decl.Body, sub, visited, depth+1)
+	for k, s := range sub.heap {
+		ms.heap[k] = s
+		if ms.whole != nil {
+			ms.whole[k] = true
+		}
+	}
 }
 
 // contractMods adds the heap keys named by a contract's modifies clause (coarsely: whole field arrays).
 func (e *Engine) contractMods(fc *FuncContract, ms *modSet) {
 	if !fc.HasMod {
-		if !fc.Trusted {
-			ms.all = true
-		}
 		return
 	}
 	for _, m := range fc.Modifies {
 		for _, k := range e.modKeys(fc, m) {
 			ms.heap[k.key] = k.sort
+			if ms.whole != nil && !strings.HasPrefix(k.key, "ghost:") {
+				ms.whole[k.key] = true
+			}
 		}
 	}
 }
